@@ -22,33 +22,38 @@ def main():
     resf = os.path.join(SEED, 'RESULTS.json')
     results = json.load(open(resf)) if os.path.exists(resf) else {}
     claimed = [c['property_id'] for c in json.load(open(os.path.join(ROOT, 'MANIFEST.json')))['checks']]
-    assert sh('git -C /repo status --porcelain').stdout.strip() == '', '/repo not clean'
+    wt = '/tmp/seedrepo'
+    sh(f'git -C /repo worktree remove --force {wt}')
+    assert sh(f'git -C /repo worktree add --detach {wt} HEAD').returncode == 0
+    env = dict(os.environ, PYTHONPATH=wt, VERIF_EVIDENCE_DIR='/tmp/seed_evidence')
     for mid in ids:
         d = os.path.join(SEED, mid)
         meta = json.load(open(os.path.join(d, 'meta.json')))
         r = {'demo_clean': None, 'demo_mutant': None, 'checks': {}}
-        r['demo_clean'] = sh(f'/venv/bin/python {d}/demo.py', cwd='/tmp').returncode
-        ap = sh(f'git -C /repo apply {d}/patch.diff')
+        r['demo_clean'] = sh(f'/venv/bin/python {d}/demo.py', cwd='/tmp').returncode     # /repo itself (unchanged)
+        ap = sh(f'git -C {wt} apply {d}/patch.diff')
         if ap.returncode != 0:
             r['error'] = 'patch does not apply: ' + ap.stderr[-300:]
             results[mid] = r
             continue
         try:
-            r['demo_mutant'] = sh(f'/venv/bin/python {d}/demo.py', cwd='/tmp').returncode
+            r['demo_mutant'] = sh(f'/venv/bin/python {d}/demo.py', cwd='/tmp', env=env).returncode
             for pid in [meta['property']] + ALSO.get(mid, []):
                 if pid not in claimed:
                     r['checks'][pid] = 'not claimed'
                     continue
                 t = time.time()
-                p = sh(f'./check {pid} --tier quick', cwd=ROOT)
+                p = sh(f'./check {pid} --tier quick', cwd=ROOT, env=env)
                 viol = [l for l in p.stdout.splitlines() if l.startswith('VIOLATION')]
                 r['checks'][pid] = {'exit': p.returncode, 'violations': len(viol), 'wall_s': round(time.time() - t, 1),
                                     'first': next((l for l in p.stdout.splitlines() if '  -> ' in l), '')[:300]}
                 print(mid, pid, r['checks'][pid], flush=True)
         finally:
-            sh('git -C /repo checkout -- .')
+            sh(f'git -C {wt} checkout -- .')
         results[mid] = r
         json.dump(results, open(resf, 'w'), indent=1)
+    sh(f'git -C /repo worktree remove --force {wt}')
+    sh('rm -rf /tmp/seed_evidence')
     print(json.dumps({k: {p: (c if isinstance(c, str) else c['exit']) for p, c in v['checks'].items()} for k, v in results.items()}, indent=1))
 
 
